@@ -19,7 +19,8 @@ var vCtlSeq = regexp.MustCompile(`\x1b\[[0-9;?]*[A-Za-z]|\x1b[78]|\r|\n`)
 var vPctRe = regexp.MustCompile(`(-?\d+)%`)
 
 var vProgressNames = []string{"a.txt", "中文文件名很长很长很长很长很长很长很长很长.bin", "emoji😀😀😀😀😀😀😀😀😀😀😀😀😀😀.dat", "ééécombining.txt", "tab\tand\x07bell", strings.Repeat("long-name-", 30),
-	"", " ", "ｆｕｌｌｗｉｄｔｈ", "x", "العربية.txt", "한국어파일이름.zip"}
+	"", " ", "ｆｕｌｌｗｉｄｔｈ", "x", "العربية.txt", "한국어파일이름.zip",
+	"report-2024-final\nappendix-tables.csv", "cr\rname.txt", "nul\x00byte.bin", "\n", "three\nshort\nlines", "del\x7fete", "中文\n中文中文中文"}
 
 type vProgSink struct {
 	rc      *runCtx
